@@ -44,6 +44,7 @@ class ClassDef:
     positional: bool = False  # decorator without kw_only=True: fields are positional unless they say otherwise
     more_bases: tuple[str, ...] = ()  # multiple inheritance: further bases after `base`
     abstract: bool = False  # has an unimplemented abstract method (cannot be instantiated)
+    pre: str = ""  # module-level source emitted right before the class (aliases the annotations need)
 
 
 ANY = ("Base",)
@@ -52,6 +53,10 @@ TABLE: list[ClassDef] = [
     ClassDef("Base", "ASTNode"),
     ClassDef("LeafA", "Base", [FieldDef("v", "int", "int", "0")]),
     ClassDef("LeafB", "Base", [FieldDef("v", "int", "int", "0")]),
+    # child fields typed through a NewType alias of a node class, nested in a tuple / an Optional
+    ClassDef("NtBox", "Base", [FieldDef("kids", "tuple[KidRef, ...]", "tuple", "()", classes=("LeafA",)),
+                               FieldDef("one", "Optional[KidRef]", "opt", "None", classes=("LeafA",))],
+             pre="\n\nKidRef = NewType(\"KidRef\", LeafA)\n"),
     # child fields whose names are also names inside the library's generated and internal code
     ClassDef("Odd", "Base", [FieldDef("self", "Base | None", "opt", "None", classes=ANY),
                              FieldDef("node", "Base | None", "opt", "None", classes=ANY),
@@ -293,7 +298,7 @@ import abc
 import enum
 from dataclasses import dataclass, field
 from pathlib import Path
-from typing import Any, ClassVar, Literal
+from typing import Any, ClassVar, Literal, NewType, Optional
 
 from mashumaro.types import SerializableType
 from pyoak.node import ASTNode
@@ -389,6 +394,8 @@ def emit_source(perm_seed: int | None = None) -> str:
     out = [HEADER]
     for c in TABLE:
         chunk_start = len(out)
+        if c.pre:
+            out.append(c.pre)
         out.append("\n@dataclass(frozen=True" + ("" if c.positional else ", kw_only=True")
                    + (", slots=True, weakref_slot=True" if c.slots else "") + ")\n")
         out.append(f"class {c.name}({', '.join((c.base, *c.more_bases))}):\n")
